@@ -134,6 +134,8 @@ impl AssemblyBuffer {
       .copy_from_slice(&datafrag.serialized_payload[..payload_size]);
 
     for f in 0..frags_in_submessage {
+      #[cfg(rustdds_verif)]
+      crate::verif::hooks::tick();
       self.received_bitmap.set(start_frag_from_0 + f, true);
     }
     self.modified_time = Timestamp::now();
